@@ -7,7 +7,7 @@
    listed class). *)
 From Coq Require Import QArith.
 From GJ Require Import Base Kernel KernelSpec KernelProofs IntersectsProofs Series SeriesSpec
-  Ring RingSpec PipProofs PairProofs Jordan JordanQ JordanGP.
+  Ring RingSpec PipProofs PairProofs Jordan JordanQ JordanGP Convex.
 Open Scope Z_scope.
 
 (* X contains a point: point membership (for a single point covering = meeting) *)
@@ -91,6 +91,34 @@ Theorem C03_ring_segment_general_position : forall ps A B,
                strictly_in_ringb (ring_edges (map (sc k) ps)) P = true).
 Proof. exact ring_contains_segment_general_position_pointset. Qed.
 
+(* convex rings (every vertex weakly on the inner side of every edge line; sigma = 1 counter-clockwise,
+   -1 clockwise; no zero-length edges) — the typical hole: a point strictly inside is strictly on the
+   inner side of every edge, so the convex shortcut of ringContainsSegment (both ends strictly inside
+   => contained) is exact for strict containment *)
+Theorem C03_convex_strictly_inside_inner_side : forall sigma ps p,
+  (sigma = 1 \/ sigma = -1) -> hpc sigma ps -> no_zero_edges ps ->
+  strictly_in_ringb (ring_edges ps) p = true ->
+  forall a b, In (a, b) (ring_edges ps) -> 0 < sigma * cross a b p.
+Proof. exact strictly_inside_inner_side. Qed.
+Theorem C03_convex_ring_segment_strict_pointset : forall sigma ps A B,
+  (sigma = 1 \/ sigma = -1) -> hpc sigma ps -> no_zero_edges ps ->
+  ring_convex (RS {| closed := true; pts := ps |}) = true ->
+  (rcs (RS {| closed := true; pts := ps |}) (A, B) false = true <->
+   forall k P, 0 < k -> on_seg (sc k A, sc k B) P ->
+               strictly_in_ringb (ring_edges (map (sc k) ps)) P = true).
+Proof. exact ring_contains_segment_convex_pointset. Qed.
+Example C03_convex_hypotheses_hold_somewhere :
+  let ps := [(0,0); (6,0); (6,4); (0,4); (0,0)] in
+  hpc 1 ps /\ no_zero_edges ps /\ ring_convex (RS {| closed := true; pts := ps |}) = true /\
+  rcs (RS {| closed := true; pts := ps |}) ((1,1), (5,3)) false = true.
+Proof.
+  cbv zeta. split; [|split; [|split; vm_compute; reflexivity]].
+  - intros a b c d Hab Hcd. vm_compute in Hab, Hcd.
+    destruct Hab as [E1|[E1|[E1|[E1|[]]]]]; destruct Hcd as [E2|[E2|[E2|[E2|[]]]]];
+      inversion E1; inversion E2; subst; vm_compute; split; discriminate.
+  - intros a b Hab. vm_compute in Hab. destruct Hab as [E1|[E1|[E1|[E1|[]]]]]; inversion E1; subst; discriminate.
+Qed.
+
 (* non-vacuity: an L-shaped (concave) ring and a segment strictly inside it; and one that
    leaves through the notch *)
 Example C03_strict_example :
@@ -104,6 +132,8 @@ Print Assumptions C03_rect_rect.
 Print Assumptions C03_ring_segment_strict_exact.
 Print Assumptions C03_ring_segment_strict_pointset.
 Print Assumptions C03_ring_segment_general_position.
+Print Assumptions C03_convex_strictly_inside_inner_side.
+Print Assumptions C03_convex_ring_segment_strict_pointset.
 Print Assumptions C03_rect_line.
 Print Assumptions C03_rect_poly.
 Print Assumptions C03_point_line.
